@@ -33,7 +33,8 @@ def main():
             exc = "%s: %s" % (type(e).__name__, e)
         out.append({"failed": failed, "exc": exc, "stdout": buf.getvalue(), "pid": os.getpid(),
                     "streams_ok": sys.stdout is sys.__stdout__ or type(sys.stdout).__name__ != "BufferedStandardStream"})
-        purge(r["dir"])
+        if not r.get("keep"):
+            purge(r["dir"])
     json.dump({"runs": out}, sys.stdout)
 
 
